@@ -13,3 +13,7 @@ open Biogo.Properties.C02
 #print axioms gff_coords
 #print axioms gff_text_is_one_based
 #print axioms gff_write_count
+#print axioms region_roundtrip
+#print axioms inline_seq_roundtrip
+#print axioms region_write_count
+#print axioms inline_seq_write_count
